@@ -63,6 +63,8 @@ def _seed_dropped_when_zero(v: Any) -> Any:
                 # `running or K` as a value: ite(running != 0, running, K)
                 first, second = sd[2], sd[3]
                 tests_first = sd[1] in (("cmp", "!=", first, T.c(0)), ("truthy", first))
+                if not tests_first and sd[1] in (("cmp", "==", second, T.c(0)), ("not", ("truthy", second))):
+                    first, second, tests_first = sd[3], sd[2], True        # written with the positive test: ite(x == 0, K, x)
                 if tests_first and T.is_c(second) and isinstance(second[1], int) and second[1] != 0 and isinstance(first, tuple) and first[:2] == ("app", "binascii.crc_hqx"):
                     return ("or", first, second)
         for x in v:
